@@ -16,6 +16,17 @@ def user_fn(self, *a, **k):
     return "user"
 
 
+def new_class(body):
+    """class T with the given body entries. (CrossHair's 3-argument type() realises - i.e. copies - the namespace, which
+    would break the identity checks below; an empty class populated with setattr keeps the very objects.)"""
+    cls = type("T", (), {})
+    for k, v in body.items():
+        if k in ("__module__", "__qualname__"):
+            continue
+        setattr(cls, k, v)
+    return cls
+
+
 def occupant(kind):
     if kind == "function":
         return user_fn
@@ -78,7 +89,7 @@ def make_occupied(tname, kind):
             occupied = pick(pool, ni)
             body[occupied] = occupant(kind)
         original = {**body}
-        cls = type("T", (), {**body})  # ({**d} rather than dict(d): CrossHair's dict() builds its own map type)
+        cls = new_class(body)
         cls = spec_class(init=bool(init_), repr=bool(repr_), eq=bool(eq_), bootstrap=not lazy)(cls)
         if lazy:
             cls.__spec_class__  # first trigger
@@ -87,6 +98,8 @@ def make_occupied(tname, kind):
         def identities(stage):
             for n, v in original.items():
                 if n in ("__annotations__", "__module__", "__qualname__"):
+                    continue
+                if n not in cls.__dict__ and n in ("__module__", "__qualname__"):
                     continue
                 check(n in cls.__dict__ and cls.__dict__[n] is v, "decorating a class never replaces anything defined in that class's own body", f"{tag}/replaced-{stage}/{'occupied' if n == occupied else 'body'}-{type(v).__name__}", lambda: f"{n}: {v!r} -> {cls.__dict__.get(n)!r}")
 
@@ -137,7 +150,7 @@ def make_selection():
         if kind == "attrs_typed":
             colls = {"z": "z_item"}
         original = {**body}
-        cls = spec_class(bootstrap=not lazy, **kw)(type("T", (), {**body}))
+        cls = spec_class(bootstrap=not lazy, **kw)(new_class(body))
         if lazy:
             cls.__spec_class__
         want = []
@@ -159,7 +172,7 @@ def make_collision():
         ann = {"item/items": {"item": int, "items": List[int]}, "x/xs": {"xs": List[int], "x": int}, "fallback-taken": {"item": int, "items": List[int], "items_item": int}, "no-collision": {"item": int, "things": List[int]}}[kind]
         body = {"__annotations__": {**ann}}
         try:
-            cls = spec_class(bootstrap=not lazy)(type("T", (), {**body}))
+            cls = spec_class(bootstrap=not lazy)(new_class(body))
             if lazy:
                 cls.__spec_class__
             exc = None
